@@ -30,10 +30,10 @@ for m in sorted(glob.glob('/verif/seeded/*/meta.json')):
         und = [r for r in rs if r[2] == "2"]
         if hit:
             r = hit[0]; res = "**caught** by `./check %s` (%s)%s" % (r[0], r[1], "" if r[4] == "0" else ", no-failing-input-found"); ob = "`%s`" % r[3]; caught += 1
-        elif und:
+        elif und and len(und) == len(rs):
             res = "undecided (exit 2: tool limit on the changed tree)"; ob = ""; undec += 1
         else:
-            res = "not caught (exit 0) by " + ", ".join("`./check %s`" % r[0] for r in rs); ob = ""; missed += 1
+            res = "not caught (exit 0) by " + ", ".join("`./check %s`" % r[0] for r in rs if r[2] == "0") + ("; the full run of the property was undecided (a solver was killed under memory pressure while several seeds were tested in parallel)" if und else ""); ob = ""; missed += 1
     lines.append("| %s | %s | %s | %s | %s |" % (sid, md["property"], md["what"].replace("|", "/")[:170], res, ob))
 matrix = "\n".join(lines) + "\n\nTotals of this run: %d caught, %d not caught, %d undecided, of %d seeded changes.\n" % (caught, missed, undec, caught + missed + undec)
 if "### 9.6 Catch matrix" in s:
